@@ -23,7 +23,7 @@ CONSTANTS
   DOps <- OpsAll
   DMis <- Mis0
   SStreams <- StreamsP
-  SQs <- Q68
+  SQs <- Q1to8
   CapMax = 8
   HistD = 9
   Kinds <- None
